@@ -17,6 +17,7 @@ PROPS = {
         "units": [
             regress("C01"),
             {"run": "^TestC01$", "quick": 20000, "thorough": 200000},
+            {"run": "^TestC01Repetitive$", "quick": 60, "thorough": 1000},
             {"fuzz": "FuzzC01", "fuzztime": "90s", "thorough_only": True, "run": "FuzzC01"},
         ],
     },
@@ -30,6 +31,7 @@ PROPS = {
             regress("C02"),
             {"run": "^TestRefSelf$", "quick": 300, "thorough": 3000, "single": True},
             {"run": "^TestC02$", "quick": 20000, "thorough": 200000},
+            {"run": "^TestC02Repetitive$", "quick": 60, "thorough": 1000},
             {"run": "^TestC02FileWriter$", "quick": 8000, "thorough": 80000},
             {"fuzz": "FuzzC02", "fuzztime": "60s", "thorough_only": True, "run": "FuzzC02"},
         ],
@@ -114,6 +116,7 @@ PROPS = {
             regress("C07"),
             {"run": "^TestRefSelf$", "quick": 300, "thorough": 3000, "single": True},
             {"run": "^TestC07$", "quick": 400, "thorough": 2000},
+            {"run": "^TestC07Repetitive$", "quick": 25, "thorough": 300},
         ],
     },
     "C08": {
